@@ -202,6 +202,30 @@ class FnParam(Component):
       s.out @= s.in_ + k
 
 
+class SetParam(Component):
+  """a set-valued construct argument (iteration order of a set of strings depends on the hash seed)"""
+  def construct(s, ops):
+    s.in_ = InPort(Bits8)
+    s.out = OutPort(Bits8)
+    k = (1 if "add" in ops else 0) + (2 if "mul" in ops else 0) + (4 if "very_long_operation_name" in ops else 0)
+
+    @update
+    def up_set():
+      s.out @= s.in_ + k
+
+
+class FnListParam(Component):
+  """functions inside a list / tuple / dict argument"""
+  def construct(s, fns, more=None):
+    s.in_ = InPort(Bits8)
+    s.out = OutPort(Bits8)
+    k = sum(f(3) for f in fns) + (more["f"](1) if more else 0)
+
+    @update
+    def up_fnl():
+      s.out @= s.in_ + k
+
+
 KCfg = mk_bitstruct("KCfg", {"x": Bits4, "y": Bits4})
 
 
